@@ -65,8 +65,10 @@ def check(ctx):
     miss = [n for n in rej if n.ast.exc is not None and norm(n.ast.exc).startswith('KeyError') and
             (fact_key('var', False) in g.fact_keys_at(n) or any('get_element_by_complete_name' in k[0] for k in g.fact_keys_at(n)))]
     ctx.inst('R1', ac, 'unknown-variable-raises', len(miss) >= 2, 'a variable missing from the TOC raises KeyError (default-typed and typed variables)')
-    toc_chk = [n for n in rej if fact_key('self.toc.get_element_by_complete_name(var.name) is None', True) in g.fact_keys_at(n)]
-    ctx.inst('R1', ac, 'every-toc-variable-checked', len(toc_chk) == 1 and fact_key('var.is_toc_variable()', True) in g.fact_keys_at(toc_chk[0]),
+    lv = norm(loops[0].target) if len(loops) == 1 and isinstance(loops[0].target, ast.Name) else 'var'          # the loop variable, whatever its name
+    toc_chk = [n for n in rej if fact_key('self.toc.get_element_by_complete_name(%s.name) is None' % lv, True) in g.fact_keys_at(n) and
+               any(x is n.ast for l in loops for x in ast.walk(l))]
+    ctx.inst('R1', ac, 'every-toc-variable-checked', len(toc_chk) == 1 and fact_key('%s.is_toc_variable()' % lv, True) in g.fact_keys_at(toc_chk[0]),
              'every TOC variable of the configuration is looked up')
     ci = C.method('__init__')
     per = [s for s in walk_own(ci.node) if isinstance(s, ast.Assign) and norm(s.targets[0]) == 'self.period']
